@@ -651,11 +651,53 @@ func genDag(g *gen) Case {
 	return c
 }
 
+// genOrder: two Go-API strings (> 16 bytes, nothing has scanned them) whose first difference pits an astral
+// character (code units D800-DFFF) against a character in U+E000-U+FFFF: UTF-16 code-unit order and code-point /
+// UTF-8 byte order disagree exactly there
+func genOrder(g *gen) Case {
+	g.noInvalid = true
+	defer func() { g.noInvalid = false }()
+	prefix := g.unitsOf(g.r.Pick(3, 4, 0, 3, 0), g.r.Intn(10))
+	hi := []int{0xE000, 0xFFFD, 0xFFFF, 0xF900, 0xFB1D, 0xE123}[g.r.Intn(6)]
+	x := appendCP(append([]int(nil), prefix...), alphaAstral[g.r.Intn(len(alphaAstral))])
+	y := append(append([]int(nil), prefix...), hi)
+	x = append(x, g.unitsOf(g.r.Pick(3, 4, 0, 3, 0), g.r.Intn(6))...)
+	y = append(y, g.unitsOf(g.r.Pick(3, 4, 0, 3, 0), g.r.Intn(6))...)
+	for len(g.goBytes(x, false)) <= 16 {
+		x = append(x, 'p')
+	}
+	for len(g.goBytes(y, false)) <= 16 {
+		y = append(y, 'q')
+	}
+	mk := func(u []int) *Node {
+		b := g.goBytes(u, false)
+		switch g.r.Pick(4, 3, 2, 1) {
+		case 0:
+			return &Node{K: "go", U: b}
+		case 1:
+			return &Node{K: "imp", U: b}
+		case 2: // byte-joined concatenation of two unscanned imported strings
+			i := g.r.Intn(len(b) + 1)
+			return &Node{K: "cat", A: &Node{K: "imp", U: b[:i]}, B: &Node{K: "imp", U: b[i:]}}
+		default:
+			return g.derive(u, 1+g.r.Intn(2))
+		}
+	}
+	c := Case{Kind: "order", ObsFirst: g.r.Chance(30), A: mk(x), B: mk(y)}
+	if g.r.Bool() {
+		c.A, c.B = c.B, c.A
+	}
+	return c
+}
+
 func genCase(g *gen, tier string) Case {
 	depth := 1 + g.r.Intn(4)
 	c := Case{ObsFirst: g.r.Chance(30)}
 	if g.r.Chance(15) {
 		return genDag(g)
+	}
+	if g.r.Chance(5) {
+		return genOrder(g)
 	}
 	switch g.r.Pick(50, 25, 25) {
 	case 0:
@@ -915,7 +957,7 @@ func valid(n *Node) bool {
 // ------------------------------------------------------------------------------------------------
 // running one case
 
-const failTerm = "(mkCase (ELit nil) (ELit nil) (mkS nil nil true) (mkS nil nil true) (mkP true true true true false false true true true true true true true true) false)%N"
+const failTerm = "(mkCase (ELit nil) (ELit nil) (mkS nil nil true) (mkS nil nil true) (mkP true true true true false false true true true true true true true true true true) false)%N"
 
 type single struct {
 	units  []int
@@ -1026,7 +1068,7 @@ function SELF(k){var s=new Set();s.add(k);var m=new Map([[k,1]]);var n=k.length;
 	// ---- 1. dictionary observations, each FIRST on a freshly evaluated pair
 	var fresh []bool
 	var ra, rb string
-	for k, src := range []string{"new Map([[a,1]]).get(b)===1", "new Map([[b,1]]).get(a)===1", "new Set([a,b]).size===1", ""} {
+	for k, src := range []string{"new Map([[a,1]]).get(b)===1", "new Map([[b,1]]).get(a)===1", "new Set([a,b]).size===1", "", "a<b", "a>b"} {
 		va, vb, why := eval()
 		if why != "" {
 			return fail(why)
@@ -1168,7 +1210,7 @@ function SELF(k){var s=new Set();s.add(k);var m=new Map([[k,1]]);var n=k.length;
 		tl = append(tl, t)
 	}
 	sort.Strings(tl)
-	obs := fmt.Sprintf("a=%v export=%v lit=%v repr=%s | b=%v export=%v lit=%v repr=%s | [=== ===rev == is < > map maprev obj hash | fresh: map maprev set hash]=%v | srcA=%s | srcB=%s",
+	obs := fmt.Sprintf("a=%v export=%v lit=%v repr=%s | b=%v export=%v lit=%v repr=%s | [=== ===rev == is < > map maprev obj hash | fresh: map maprev set hash < >]=%v | srcA=%s | srcB=%s",
 		sa.units, sa.export, sa.lit, ra, sb.units, sb.export, sb.lit, rb, p, srcA, srcB)
 	if len(obs) > 1900 {
 		obs = obs[:1900]
